@@ -168,6 +168,16 @@ def extra_checks(tier, seed, repo):
                     notes.append(f"line {rec['line']}: auxiliary file named by the contract ({rec['written']})")
                 else:
                     bad.append(f"line {rec['line']}: {rec['writer']} writes `{rec['written']}` but the function returns `{rec['returned']}`: {rec['verdict']} ({rec.get('why', '')})")
+            # twin rule: a binary file and its text twin requested through the SAME output name (np.save(x, A) and np.savetxt(x, B)
+            # under `x.endswith('.dat')`) must hold the same values: A and B are the same expression (same writer twice = scratch / exclusive branches)
+            by_file = {}
+            for rec, w in zip(fl, ws):
+                if w.get("file") is not None and not _is_aux(fi, w):
+                    by_file.setdefault(P._txt(w["file"], 200), []).append(rec)
+            for ftxt, recs in sorted(by_file.items()):
+                exprs = sorted({r["written"] for r in recs})
+                if len(exprs) > 1 and len({r["writer"] for r in recs}) > 1:      # a binary file and its text twin (different writers)
+                    bad.append(f"output name `{ftxt}` receives different values: " + ", ".join(f"line {r['line']}: {r['writer']}({r['written']})" for r in recs))
             if bad:
                 obs.append(_ob(f"{short}:file=returned", "REFUTED", "; ".join(bad[:3]), per_ms))
                 todo.append((len(obs) - 1, name, "file"))
@@ -293,6 +303,18 @@ class FrameOf(Unit):
             saves = []
         if not saves:
             yield "file=returned", True
+        # twin rule: save events through the same output name (binary file + its text twin) carry equal arrays
+        for k1, e1 in enumerate(saves):
+            for e2 in saves[k1 + 1:]:
+                if isinstance(e1[1], str) and e1[1] == e2[1] and e1[0] != e2[0] and e1[2].sid != e2[2].sid:
+                    a1, a2 = e1[2], e2[2]
+                    if a1.ndim != a2.ndim:
+                        yield "file=returned", False
+                        continue
+                    ix = tuple(sv.fresh_int("tw") for _ in range(a1.ndim))
+                    inr2 = sv.and_(*[sv.and_(sv.cmp(">=", i, 0), sv.cmp("<", i, d)) for i, d in zip(ix, a1.shape)]) if a1.ndim else True
+                    yield "file=returned", sv.and_(*([sv.cmp("==", x, y) for x, y in zip(a1.shape, a2.shape) if not (sv.is_conc(x) and sv.is_conc(y) and x == y)] +
+                                                     [sv.implies(inr2, sv.cmp("==", a1.get(ix), a2.get(ix)))]))
         for e in saves:
             a = e[2]
             idx = tuple(sv.fresh_int("fx") for _ in range(a.ndim))
